@@ -53,6 +53,8 @@ def directed_histories():
         H("other builder order", [R({"builders": ["b0", "b1"]}), R({"builders": ["b1", "b0"]})]),
         H("partition, narrower selection", [R({"partition": (1, 2)}), R({"builders": ["b1"], "partition": (1, 2)})]),
         H("partition changed", [R({"partition": (1, 2)}), R({"partition": (2, 2)})]),
+        H("other builder order under a partition (a partition counts positions)", [R({"builders": ["b0", "b1"], "partition": (1, 2)}), R({"builders": ["b1", "b0"], "partition": (1, 2)})]),
+        H("other builder order under a partition, three builders", [R({"builders": ["b0", "b1", "b2"], "partition": (2, 3)}), R({"builders": ["b2", "b1", "b0"], "partition": (2, 3)}), R({"builders": ["b0", "b1", "b2"], "partition": (2, 3)})]),
         H("select changed", [R({}), R({"select": ["opt"]}), R({})]),
         H("select order changed", [R({"select": ["opt", "lib"]}), R({"select": ["lib", "opt"]})]),
         H("disable order changed", [R({"disable": ["opt", "lib"]}), R({"disable": ["lib", "opt"]})]),
